@@ -205,6 +205,30 @@ def gen():
               assert!(r.is_ok() == u.is_within_bounds());
               """, ["impl<T, U> TryFromColor<T> for U", "impl<T, U> TryIntoColor<U> for T", "OutOfBounds::color"],
               "all 2^32 source values; plumbing color types")
+    o.harness("c03_from_color_collections",
+              "the collection forms of FromColor clamp like the single-colour form: every element of Vec::<U>::from_color(Vec<T>) and of "
+              "Box::<[U]>::from_color(Box<[T]>) equals from_color_unclamped(element).clamp() (and into_color agrees), while the unclamped "
+              "collection forms do not clamp (harness colour types, length 2)",
+              """
+              let (a, b) = (PSrc(kani::any()), PSrc(kani::any()));
+              kani::cover!(true);
+              let want = [PDst::from_color_unclamped(a).clamp(), PDst::from_color_unclamped(b).clamp()];
+              let raw = [PDst::from_color_unclamped(a), PDst::from_color_unclamped(b)];
+              let v = Vec::<PDst>::from_color(vec![a, b]);
+              assert!(v.len() == 2 && v[0] == want[0] && v[1] == want[1]);
+              let bx = Box::<[PDst]>::from_color(vec![a, b].into_boxed_slice());
+              assert!(bx.len() == 2 && bx[0] == want[0] && bx[1] == want[1]);
+              let vi: Vec<PDst> = vec![a, b].into_color();
+              assert!(vi[0] == want[0] && vi[1] == want[1]);
+              let bi: Box<[PDst]> = vec![a, b].into_boxed_slice().into_color();
+              assert!(bi[0] == want[0] && bi[1] == want[1]);
+              let vu = Vec::<PDst>::from_color_unclamped(vec![a, b]);
+              assert!(vu[0] == raw[0] && vu[1] == raw[1]);
+              let bu = Box::<[PDst]>::from_color_unclamped(vec![a, b].into_boxed_slice());
+              assert!(bu[0] == raw[0] && bu[1] == raw[1]);
+              """, ["impl FromColor<Vec<T>> for Vec<U>", "impl FromColor<Box<[T]>> for Box<[U]>", "impl FromColorUnclamped<Vec<T>> for Vec<U>",
+                    "impl FromColorUnclamped<Box<[T]>> for Box<[U]>", "cast::map_vec_in_place", "cast::map_slice_box_in_place"],
+              "all 2^64 pairs of source values; plumbing colour types; length 2", unwind=4)
     HSV, HWB = f"palette::Hsv<{SRGB}, f32>", f"palette::Hwb<{SRGB}, f32>"
     o.harness("c03_try_from_color_hsv_hwb",
               f"{HWB}::try_from_color(x) for every finite {HSV}: Ok exactly when the unclamped result is within bounds; the value is "
